@@ -9,3 +9,5 @@ CONSTANTS
  Datas = {"d0", "d1"}
  Prefixes <- SmallPrefixes
  MaxOps = 3
+ Styles = {"write", "nowrite"}
+ EmptyData = "d0"
